@@ -60,6 +60,21 @@ class Scope(dict):
             dict.__setitem__(self, k, v)
 
 
+class _Fallback:
+    """module scope behind the analysis' own builtins: an explicit builtin of the rule wins over a module-level definition"""
+    def __init__(self, module, builtins):
+        self.module, self.builtins = module, builtins
+
+    def __contains__(self, k):
+        return k not in self.builtins and k in self.module
+
+    def __getitem__(self, k):
+        return self.module[k]
+
+    def __setitem__(self, k, v):
+        self.module[k] = v
+
+
 class Return(Exception):
     def __init__(self, value):
         self.value = value
@@ -72,6 +87,30 @@ class SymInterp:
         self.builtins = builtins or {}
         self.max_depth = max_depth
         self.depth = 0
+        self.module_scopes = {}   # rel -> dict of module-level names (persist across calls: module lifetime)
+
+    def module_scope(self, rel):
+        """module-level names visible to the functions of module rel: simple literal assignments (evaluated once, so that a module-level
+        container keeps its content between calls, as in the real process) and the module's own top-level functions"""
+        if rel in self.module_scopes:
+            return self.module_scopes[rel]
+        sc = {}
+        self.module_scopes[rel] = sc
+        mod = self.src.modules.get(rel)
+        if mod is None:
+            return sc
+        for st in mod.body:
+            if isinstance(st, ast.Assign) and len(st.targets) == 1 and isinstance(st.targets[0], ast.Name):
+                v = st.value
+                if isinstance(v, (ast.Dict, ast.List, ast.Set)) and not getattr(v, "keys", None) and not getattr(v, "elts", None):
+                    sc[st.targets[0].id] = {} if isinstance(v, ast.Dict) else ([] if isinstance(v, ast.List) else set())
+                elif isinstance(v, ast.Constant):
+                    sc[st.targets[0].id] = v.value
+            elif isinstance(st, ast.FunctionDef):
+                fi = self.src.funcs.get((rel, st.name))
+                if fi is not None:
+                    sc[st.name] = (lambda fi: (lambda *a, **k: self.call_function(fi, list(a), k)))(fi)
+        return sc
 
     # ------------------------------------------------------------------ calling source functions
     def call_function(self, fi, args, kwargs=None):
@@ -82,15 +121,16 @@ class SymInterp:
         try:
             a = fi.node.args
             names = [x.arg for x in a.posonlyargs + a.args]
-            env = {}
+            globs = [n for x in ast.walk(fi.node) if isinstance(x, ast.Global) for n in x.names]
+            env = Scope(_Fallback(self.module_scope(fi.rel), self.builtins), globs)
             defaults = dict(zip(names[len(names) - len(a.defaults):], a.defaults))
             for i, n in enumerate(names):
                 if i < len(args):
-                    env[n] = args[i]
+                    dict.__setitem__(env, n, args[i])
                 elif n in kwargs:
-                    env[n] = kwargs[n]
+                    dict.__setitem__(env, n, kwargs[n])
                 elif n in defaults:
-                    env[n] = self.ev(defaults[n], {})
+                    dict.__setitem__(env, n, self.ev(defaults[n], {}))
                 else:
                     raise AnalysisError(f"{fi.where}: missing argument {n}")
             try:
@@ -168,7 +208,7 @@ class SymInterp:
             raise _Break()
         if isinstance(s, ast.Return):
             raise Return(self.ev(s.value, env) if s.value is not None else None)
-        if isinstance(s, (ast.Assert, ast.Pass, ast.Nonlocal)):
+        if isinstance(s, (ast.Assert, ast.Pass, ast.Nonlocal, ast.Global)):
             return
         if isinstance(s, ast.FunctionDef):
             node = s
@@ -376,6 +416,8 @@ class SymInterp:
             target = self.resolver(recv, f.attr)
             if target is None and isinstance(recv, Sym) and callable(recv.__dict__.get(f.attr)):
                 target = recv.__dict__[f.attr]
+            if target is None and isinstance(recv, Sym) and f.attr in type(recv).__dict__ and callable(type(recv).__dict__[f.attr]) and not f.attr.startswith("__"):
+                target = getattr(recv, f.attr)
             if target is not None:
                 if callable(target):
                     return target(*args, **kwargs)
